@@ -1596,6 +1596,11 @@ fn main() -> Result<()> {
         Some("c07") => cmd_c07(args[2].parse()?, args[3].parse()?, &args[4], &args[5]),
         Some("f8") => cmd_f8(),
         Some("apply") => cmd_apply(&args[2]),
+        Some("wat2wasm") => {
+            let w = wat::parse_file(args.get(2).ok_or_else(|| anyhow!("in"))?)?;
+            std::fs::write(args.get(3).ok_or_else(|| anyhow!("out"))?, w)?;
+            Ok(())
+        }
         Some("abi") => cmd_abi(args.get(2).ok_or_else(|| anyhow!("out path"))?, &args[3..]),
         _ => {
             eprintln!("usage: sfw glue <out.lean> | abi <out.lean> [names..] | c04 <seed> <n> <ops> <impl> | c07 <seed> <n> <ops> <impl> | f8");
